@@ -31,7 +31,13 @@ def sliding_windows(
     n_cols = kernel_output_size
 
     result = np.empty((n_rows, n_cols), dtype=kernel_output_dtype)
-    if sample.shape[0] < width:
+    # the sample can only be skipped when it is the identity selection 0..width-1
+    identity_sample = sample.shape[0] == width
+    if identity_sample:
+        for k in range(width):
+            if sample[k] != k:
+                identity_sample = False
+    if not identity_sample:
         for i in range(n_rows):
             result[i] = kernel(sequence[i * stride : i * stride + width][sample])
             # result[i] = np.asarray(
